@@ -76,12 +76,21 @@ func main() {
 				if !ok || gd.Tok != token.VAR {
 					continue
 				}
+				imports := importNames(f)
 				for _, s := range gd.Specs {
 					vs := s.(*ast.ValueSpec)
 					p.specs[vs] = true
+					ss := selfSynchronised(vs, imports)
 					for _, n := range vs.Names {
 						if n.Name != "_" {
 							p.vars[n.Name] = true
+							if ss {
+								// sync.Map / Pool / Once, atomic.Value / Int64 ...: every access goes through methods
+								// that synchronise. Such a variable cannot be the subject of a data race, but a use
+								// of it is a natural preemption point: it gets a yield, not an access record.
+								selfSync[p.path+"."+n.Name] = true
+								p.mutated[n.Name] = true
+							}
 						}
 					}
 				}
@@ -219,6 +228,55 @@ func rootVar(p *pkgInfo, imports map[string]string, e ast.Expr) (*pkgInfo, strin
 	}
 }
 
+// selfSynchronised tells whether a package-level variable is declared with a type of package sync or
+// sync/atomic (by its type expression, or by a composite literal / new() of such a type).
+func selfSynchronised(vs *ast.ValueSpec, imports map[string]string) bool {
+	isSync := func(e ast.Expr) bool {
+		for {
+			switch x := e.(type) {
+			case *ast.StarExpr:
+				e = x.X
+				continue
+			case *ast.SelectorExpr:
+				if id, ok := x.X.(*ast.Ident); ok {
+					path := imports[id.Name]
+					return path == "sync" || path == "sync/atomic"
+				}
+			}
+			return false
+		}
+	}
+	if vs.Type != nil {
+		return isSync(vs.Type)
+	}
+	for _, v := range vs.Values {
+		switch x := v.(type) {
+		case *ast.CompositeLit:
+			if x.Type != nil && isSync(x.Type) {
+				return true
+			}
+		case *ast.UnaryExpr:
+			if cl, ok := x.X.(*ast.CompositeLit); ok && cl.Type != nil && isSync(cl.Type) {
+				return true
+			}
+		}
+	}
+	return false
+}
+
+// atomicCall tells whether a call is a function of sync/atomic (atomic.AddInt64(&v, 1) ...): the
+// variable it is handed is accessed atomically there.
+func atomicCall(c *ast.CallExpr, imports map[string]string) bool {
+	if sel, ok := c.Fun.(*ast.SelectorExpr); ok {
+		if id, ok := sel.X.(*ast.Ident); ok && id.Obj == nil {
+			return imports[id.Name] == "sync/atomic"
+		}
+	}
+	return false
+}
+
+var selfSync = map[string]bool{}
+
 func markMut(p *pkgInfo, imports map[string]string, e ast.Expr) {
 	if q, v := rootVar(p, imports, e); q != nil {
 		q.mutated[v] = true
@@ -261,6 +319,18 @@ func accessesOf(p *pkgInfo, imports map[string]string, n ast.Node, write map[str
 		switch x := m.(type) {
 		case *ast.FuncLit:
 			return false
+		case *ast.CallExpr:
+			if atomicCall(x, imports) {
+				// an atomic access is not one side of a data race; it is a preemption point
+				for _, a := range x.Args {
+					if u, ok := a.(*ast.UnaryExpr); ok && u.Op == token.AND {
+						if q, v := rootVar(p, imports, u.X); q != nil && q.mutated[v] {
+							read["~"+q.path+"."+v] = true
+						}
+					}
+				}
+				return false
+			}
 		case *ast.BlockStmt:
 			return m == n
 		case *ast.UnaryExpr:
@@ -356,6 +426,11 @@ func rewrite(p *pkgInfo, f *ast.File) bool {
 			}
 			sort.Strings(names)
 			for _, v := range names {
+				if strings.HasPrefix(v, "~") || selfSync[v] {
+					out = append(out, call("SyncPoint", lit(strings.TrimPrefix(v, "~"))))
+					changed = true
+					continue
+				}
 				wr := "false"
 				if w[v] {
 					wr = "true"
